@@ -169,6 +169,50 @@ def runtime_layout(text, cfg):
     return None
 
 
+def include_twice_oracle():
+    """A file included twice means its text twice: labels, relative offsets and constants of the whole program are
+    those of the program with the file pasted in (seed C04g: the second copy shared operation objects with the
+    first and inherited its offsets)."""
+    import shutil
+    import tempfile
+    d = tempfile.mkdtemp()
+    problems = []
+    try:
+        inc = "CMP(R1, R0)\nBZR(done)\nINC(R2, 1)\nSET(R3, done)\nBR(done)\n"
+        layouts = [("SET(R1, 1)\n%s\nNOP()\nNOP()\n%s\nLABEL(done)\nHALT()\n", "forward"),
+                   ("LABEL(done)\nNOP()\n%s\nINC(R4, 1)\nINC(R4, 2)\nINC(R4, 3)\n%s\nHALT()\n", "backward"),
+                   ("%s\n" + "NOP()\n" * 120 + "%s\nLABEL(done)\nHALT()\n", "far")]
+        open(os.path.join(d, "inc.hera"), "w").write(inc)
+        for tmpl, what in layouts:
+            main_text = tmpl % ('#include "inc.hera"', '#include "inc.hera"')
+            pasted = tmpl % (inc.rstrip("\n"), inc.rstrip("\n"))
+            for mode in ("", "assemble", "preprocess", "debug"):
+                cfg = {"mode": mode, "allow_interrupts": mode in ("assemble", "preprocess"), "no_debug_ops": False, "data_start": 0xC001}
+                mp = os.path.join(d, "main.hera")
+                open(mp, "w").write(main_text)
+                from hera.parser import parse
+                from vmstate import run_real as rr
+                res, exc, _, _ = rr(lambda: parse(main_text, path=mp, settings=pc.make_settings(cfg)))
+                if exc:
+                    problems.append("parsing a program that includes a file twice raised %s" % exc)
+                    continue
+                ops_i = res[0]
+                ops_p, pm = pc.real_parse(pasted, cfg)
+                a, b = pc.real_check(ops_i, cfg), pc.real_check(ops_p, cfg)
+                strip = lambda r: {k: ([{kk: vv for kk, vv in c.items() if kk != "orig"} for c in v] if k in ("code", "data") else v)
+                                   for k, v in r.items() if k in ("code", "data", "symtab", "errors")} if "raise" not in r else r
+                if strip(a) != strip(b):
+                    ca, cb = strip(a).get("code", []), strip(b).get("code", [])
+                    k = next((i for i, (x, y) in enumerate(zip(ca, cb)) if x != y), min(len(ca), len(cb)))
+                    problems.append("mode %r, %s layout: a program that includes a file twice is preprocessed differently from the same "
+                                    "program with the file pasted in; first difference at instruction %d: %r vs %r; errors %r vs %r"
+                                    % (mode, what, k, ca[k:k + 1], cb[k:k + 1], strip(a).get("errors"), strip(b).get("errors")))
+                    break
+    finally:
+        shutil.rmtree(d, ignore_errors=True)
+    return problems
+
+
 def gen_cases(ctx, n):
     rng = ctx.rng
     cases = []
@@ -227,6 +271,8 @@ def correspondence(ctx, model_available=True):
             else:
                 agree += 1
         res["model_vs_impl_agree"] = agree
+    for b in include_twice_oracle():
+        res["spec_failures"].append({"what": b})
     res["spec_failures"] = res["spec_failures"][:5]
     res["disagreements"] = res["disagreements"][:10]
     res["nontrivial"] = len(nontrivial)
